@@ -2,5 +2,5 @@
 From Coq Require Import ExtrOcamlBasic.
 From ZV Require Import Data.Base Data.Run.
 Extraction Language OCaml.
-Extraction "model.ml" Z.of_N N.of_nat Nat.add m_init s_init map_step spec_step parse_cmd map_observe spec_observe map_table_count spec_table_count
+Extraction "model.ml" Z.of_N N.of_nat Nat.add m_init s_init map_step spec_step parse_cmd map_observe spec_observe map_table_count spec_table_count map_engine_counts
   format_int score_bits.
